@@ -18,7 +18,7 @@ use crate::with_action;
 // ---------------------------------------------------------------------------------------------
 // context types: mode and priority are type-level constants (mirrored in coq/Model/Registry.v)
 
-pub const PRIO: [isize; 8] = [30, 20, -10, 0, 10, -20, 15, 5];
+pub const PRIO: [isize; 8] = [30, 20, -10, 0, 10, isize::MIN, isize::MAX, 5]; // the extremes are legal priorities ("always last", "always first")
 
 #[derive(Component, Debug)]
 pub struct Ctx<const I: usize>;
